@@ -1,1 +1,325 @@
-fn main() {}
+use serde_json::{json, Value};
+use std::collections::BTreeMap;
+use std::time::Instant;
+use tfcheck::engine::*;
+
+fn verif_dir() -> String {
+    std::env::var("VERIF_DIR").unwrap_or_else(|_| "/verif".to_string())
+}
+
+struct Known {
+    sigs: Vec<String>,
+    what: BTreeMap<String, String>,
+}
+
+fn load_known(prop: &str) -> Known {
+    let path = format!("{}/known_findings.json", verif_dir());
+    let mut k = Known { sigs: vec![], what: BTreeMap::new() };
+    let Ok(text) = std::fs::read_to_string(&path) else { return k };
+    let v: Value = serde_json::from_str(&text).expect("known_findings.json is not valid JSON");
+    for e in v.get("findings").and_then(|x| x.as_array()).cloned().unwrap_or_default() {
+        if e.get("status").and_then(|s| s.as_str()) == Some("known") && e.get("property").and_then(|s| s.as_str()) == Some(prop) {
+            if let Some(sig) = e.get("signature").and_then(|s| s.as_str()) {
+                k.sigs.push(sig.to_string());
+                k.what.insert(sig.to_string(), e.get("what").and_then(|s| s.as_str()).unwrap_or("").to_string());
+            }
+        }
+    }
+    k
+}
+
+fn usage() -> ! {
+    eprintln!("usage: tfcheck <ID> [--tier quick|thorough] [--seed N] [--only SUBCHECK] [--scale F] [--replay FILE]\n       tfcheck selftest | list");
+    std::process::exit(2)
+}
+
+fn main() {
+    install_panic_hook();
+    let args: Vec<String> = std::env::args().skip(1).collect();
+    if args.is_empty() {
+        usage();
+    }
+    if args[0] == "selftest" {
+        std::process::exit(tfcheck::selftest::run(&verif_dir(), args.iter().any(|a| a == "--quick")));
+    }
+    if args[0] == "list" {
+        for p in tfcheck::all_properties() {
+            println!("{}: {}", p.id, p.subchecks.iter().map(|s| s.name).collect::<Vec<_>>().join(" "));
+        }
+        return;
+    }
+    let id = args[0].clone();
+    let mut tier = std::env::var("VERIF_TIER").unwrap_or_else(|_| "quick".into());
+    let mut seed: u64 = std::env::var("VERIF_SEED").ok().and_then(|s| s.trim().parse::<i64>().ok()).map(|x| x as u64).unwrap_or(1);
+    let mut only: Option<String> = None;
+    let mut scale: f64 = std::env::var("VERIF_SCALE").ok().and_then(|s| s.parse().ok()).unwrap_or(1.0);
+    let mut replay: Option<String> = None;
+    let mut threads: usize = std::env::var("VERIF_THREADS").ok().and_then(|s| s.parse().ok()).unwrap_or(16);
+    let mut i = 1;
+    while i < args.len() {
+        match args[i].as_str() {
+            "--tier" => {
+                tier = args.get(i + 1).cloned().unwrap_or_else(|| usage());
+                i += 1;
+            }
+            "--seed" => {
+                seed = args.get(i + 1).and_then(|s| s.parse::<i64>().ok()).unwrap_or_else(|| usage()) as u64;
+                i += 1;
+            }
+            "--only" => {
+                only = args.get(i + 1).cloned();
+                i += 1;
+            }
+            "--scale" => {
+                scale = args.get(i + 1).and_then(|s| s.parse().ok()).unwrap_or_else(|| usage());
+                i += 1;
+            }
+            "--threads" => {
+                threads = args.get(i + 1).and_then(|s| s.parse().ok()).unwrap_or_else(|| usage());
+                i += 1;
+            }
+            "--replay" => {
+                replay = args.get(i + 1).cloned();
+                i += 1;
+            }
+            _ => usage(),
+        }
+        i += 1;
+    }
+    let thorough = match tier.as_str() {
+        "quick" => false,
+        "thorough" => true,
+        _ => usage(),
+    };
+    let Some(prop) = tfcheck::all_properties().into_iter().find(|p| p.id == id) else {
+        eprintln!("unknown property {id}");
+        std::process::exit(2);
+    };
+    let known = load_known(&id);
+
+    if let Some(path) = replay {
+        std::process::exit(do_replay(&prop, &path, &known.sigs));
+    }
+
+    let t0 = Instant::now();
+    let mut results: Vec<SubResult> = Vec::new();
+    for sc in &prop.subchecks {
+        if let Some(o) = &only {
+            if o != sc.name {
+                continue;
+            }
+        }
+        let r = run_subcheck(prop.id, sc, thorough, seed, threads, scale, &known.sigs);
+        eprintln!(
+            "  {}/{}: cases={} nontrivial={} distinct={} ood={} known={} worst_log2={:.2} {:.1}s{}",
+            prop.id,
+            sc.name,
+            r.stats.cases,
+            r.stats.nontrivial,
+            r.distinct_nontrivial,
+            r.stats.ood,
+            r.stats.known.values().sum::<u64>(),
+            r.stats.worst_margin,
+            r.wall_s,
+            if r.failure.is_some() { "  ** VIOLATION **" } else { "" }
+        );
+        results.push(r);
+    }
+    let wall = t0.elapsed().as_secs_f64();
+
+    // ---- replay files for violations
+    let mut violation_lines = Vec::new();
+    let mut nviol = 0;
+    for r in &results {
+        if let Some(f) = &r.failure {
+            nviol += 1;
+            let sc = prop.subchecks.iter().find(|s| s.name == f.subcheck).unwrap();
+            let (decoded, _) = describe(sc, &f.case, &known.sigs, true);
+            let dir = format!("{}/replays/{}", verif_dir(), prop.id);
+            let _ = std::fs::create_dir_all(&dir);
+            let mut h = 0xcbf29ce484222325u64;
+            for w in &f.case.head {
+                h = (h ^ w).wrapping_mul(0x100000001b3);
+            }
+            for it in &f.case.items {
+                for w in it {
+                    h = (h ^ w).wrapping_mul(0x100000001b3);
+                }
+            }
+            let path = format!("{}/{}-{:016x}.json", dir, f.subcheck, h);
+            let doc = json!({
+                "property": prop.id,
+                "subcheck": f.subcheck,
+                "words": words_json(&f.case),
+                "detail": f.detail,
+                "decoded": decoded,
+                "seed": seed as i64,
+                "tier": tier,
+                "replay": format!("./check {} --replay {}", prop.id, path),
+            });
+            std::fs::write(&path, serde_json::to_string_pretty(&doc).unwrap()).expect("cannot write replay file");
+            eprintln!("  violation in {}/{}: {}", prop.id, f.subcheck, f.detail);
+            violation_lines.push(format!("VIOLATION property={} replay={}", prop.id, path));
+        }
+    }
+
+    // ---- evidence
+    let mut evaluations = 0u64;
+    let mut distinct = 0u64;
+    let mut by_sub = serde_json::Map::new();
+    let mut samples: Vec<Value> = Vec::new();
+    let mut classes: BTreeMap<String, u64> = BTreeMap::new();
+    let mut known_hits: BTreeMap<String, (u64, Option<(String, CaseWords)>)> = BTreeMap::new();
+    let mut all_exhaustive = !results.is_empty();
+    for r in &results {
+        let sc = prop.subchecks.iter().find(|s| s.name == r.name).unwrap();
+        evaluations += r.stats.cases;
+        distinct += r.distinct_nontrivial;
+        if !r.exhaustive {
+            all_exhaustive = false;
+        }
+        let mut lab = serde_json::Map::new();
+        for (k, v) in &r.stats.labels {
+            lab.insert(k.to_string(), json!(v));
+            *classes.entry(k.to_string()).or_insert(0) += v;
+        }
+        by_sub.insert(
+            r.name.to_string(),
+            json!({
+                "cases": r.stats.cases,
+                "nontrivial": r.stats.nontrivial,
+                "distinct_nontrivial": r.distinct_nontrivial,
+                "out_of_domain": r.stats.ood,
+                "known_finding_hits": r.stats.known.values().sum::<u64>(),
+                "worst_log2_err_over_bound": if r.stats.worst_margin.is_finite() { json!((r.stats.worst_margin * 100.0).round() / 100.0) } else { Value::Null },
+                "exhaustive": r.exhaustive,
+                "wall_s": (r.wall_s * 100.0).round() / 100.0,
+                "classes": Value::Object(lab),
+                "violation": r.failure.as_ref().map(|f| f.detail.clone()),
+            }),
+        );
+        for (sig, n) in &r.stats.known {
+            let e = known_hits.entry(sig.clone()).or_insert((0, None));
+            e.0 += n;
+            if e.1.is_none() {
+                if let Some(cw) = r.stats.known_example.get(sig) {
+                    e.1 = Some((r.name.to_string(), cw.clone()));
+                }
+            }
+        }
+        // samples: first non-trivial, a hash-selected one, the worst-margin one
+        let mut picks: Vec<(&str, &CaseWords)> = Vec::new();
+        if let Some(c) = r.stats.first_nontrivial.first() {
+            picks.push(("first non-trivial", c));
+        }
+        if let Some((_, c)) = &r.stats.min_key_case {
+            picks.push(("hash-selected non-trivial", c));
+        }
+        if let Some(c) = &r.stats.worst_case {
+            picks.push(("closest to the bound", c));
+        }
+        for (why, cw) in picks {
+            let (mut d, _) = describe(sc, cw, &known.sigs, false);
+            if let Value::Object(m) = &mut d {
+                m.insert("sample_kind".into(), json!(why));
+            }
+            samples.push(d);
+        }
+    }
+    for (sig, (n, ex)) in &known_hits {
+        let what = known.what.get(sig).cloned().unwrap_or_default();
+        let exs = match ex {
+            Some((scn, cw)) => {
+                let sc = prop.subchecks.iter().find(|s| s.name == scn).unwrap();
+                let (d, _) = describe(sc, cw, &known.sigs, false);
+                format!(" example={}", d)
+            }
+            None => String::new(),
+        };
+        println!("KNOWN-FINDING: property={} {} [{}] observed {} times in this run;{}", prop.id, what, sig, n, exs.chars().take(600).collect::<String>());
+    }
+    if samples.is_empty() {
+        samples.push(json!("no case was evaluated"));
+    }
+    let mut assumptions = vec![
+        "f64 + - * / sqrt of the host (x86-64 SSE2) are IEEE-754 binary64 round-to-nearest-even; the Big/Hp oracle is validated against them and against mpmath golden vectors (tfcheck selftest)".to_string(),
+        "proptest 1.11 generates and shrinks the u64 choice sequences; each sub-check decodes them deterministically".to_string(),
+        "generated search: absence of a violation on the explored cases, not a proof".to_string(),
+    ];
+    assumptions.extend(prop.assumptions.iter().cloned());
+    let mut coverage = json!({
+        "evaluations": evaluations,
+        "distinct_nontrivial": distinct,
+        "rule": prop.rule,
+        "samples": samples,
+        "by_subcheck": Value::Object(by_sub),
+        "classes": classes,
+        "known_finding_hits": known_hits.iter().map(|(k, v)| (k.clone(), json!(v.0))).collect::<serde_json::Map<_, _>>(),
+        "threads": threads,
+    });
+    if all_exhaustive {
+        coverage["exhaustive"] = json!(true);
+    }
+    let ev = json!({
+        "property_id": prop.id,
+        "tier": tier,
+        "seed": seed as i64,
+        "level": "exploration",
+        "coverage": coverage,
+        "assumptions": assumptions,
+        "wall_s": (wall * 100.0).round() / 100.0,
+        "violations": nviol,
+    });
+    if only.is_none() {
+        let dir = format!("{}/evidence", verif_dir());
+        let _ = std::fs::create_dir_all(&dir);
+        std::fs::write(format!("{}/{}.json", dir, prop.id), serde_json::to_string_pretty(&ev).unwrap()).expect("cannot write evidence");
+    }
+    for l in &violation_lines {
+        println!("{l}");
+    }
+    println!(
+        "{} {}: {} cases, {} distinct non-trivial, {} violations, {:.1}s",
+        prop.id, tier, evaluations, distinct, nviol, wall
+    );
+    std::process::exit(if nviol > 0 { 1 } else { 0 });
+}
+
+fn do_replay(prop: &Property, path: &str, known: &[String]) -> i32 {
+    let text = match std::fs::read_to_string(path) {
+        Ok(t) => t,
+        Err(e) => {
+            eprintln!("cannot read {path}: {e}");
+            return 2;
+        }
+    };
+    let v: Value = match serde_json::from_str(&text) {
+        Ok(v) => v,
+        Err(e) => {
+            eprintln!("bad replay file: {e}");
+            return 2;
+        }
+    };
+    let scn = v.get("subcheck").and_then(|s| s.as_str()).unwrap_or("");
+    let Some(sc) = prop.subchecks.iter().find(|s| s.name == scn) else {
+        eprintln!("unknown sub-check {scn} for {}", prop.id);
+        return 2;
+    };
+    let Some(cw) = v.get("words").and_then(words_from_json) else {
+        eprintln!("replay file has no words");
+        return 2;
+    };
+    let (d, r) = describe(sc, &cw, known, true);
+    println!("{}", serde_json::to_string_pretty(&d).unwrap());
+    match r.verdict {
+        Verdict::Violation(msg) => {
+            println!("replay: {msg}");
+            println!("VIOLATION property={} replay={}", prop.id, path);
+            1
+        }
+        _ => {
+            println!("replay: the case passes on this tree");
+            0
+        }
+    }
+}
